@@ -157,6 +157,14 @@ func toValidFCConfig(iconf *FCConfig) (conf *FCConfig, err error) {
 
 	if conf.Initializers == nil {
 		conf.Initializers = make(map[string]Initializer)
+	} else {
+		// the defaults below belong to this layer only: never store them in the caller's map
+		inits := make(map[string]Initializer, len(conf.Initializers))
+		for key, initializer := range conf.Initializers {
+			inits[key] = initializer
+		}
+
+		conf.Initializers = inits
 	}
 
 	if initializer, ok := conf.Initializers[fcWeightKey]; !ok {
